@@ -15,6 +15,10 @@ CLAIMED = {
     "C14": ("proof", "Finite, loop-free functions (code tables, repeat-offset machine, block/frame/literals/sequence headers) are "
                      "proved against RFC-transcribed spec functions over their entire input domains by Kani contracts; encoder/decoder "
                      "inverse pairs are two-contract lemmas.", "DESIGN.md 3.2, 4 C14"),
+    "C11": ("proof", "Loop-free/constant-loop Kani proofs over all 256 window descriptors, all single-segment sizes, all limits and every "
+                     "<= 20-byte header: exact boundary of the comparison, rejection carries (requested, limit), the reuse path reaches the "
+                     "window reservation only with window <= limit (callee precondition via contract stub), clamp to the format maximum, "
+                     "and every front end passes the configured limit on.", "DESIGN.md 3.2 H3/H4, 4 C11"),
 }
 
 PENDING = {}
